@@ -41,15 +41,17 @@ def cards(cfg, seed=0, iterations=2, max_order=(3, 0), xif=None, n3lo=(0,) * 7, 
     th["n3lo_ad_variation"] = tuple(n3lo)
     th["use_fhmruvv"] = fhmruvv
     mb = 4.92 * th["heavy"]["matching_ratios"][1]
+    # half of the cards start below the tau mass (1.777 GeV), so that an nf=4 segment crosses it
+    lo = rng.choice([1.6, 2.2])
     if cfg["shape"] == "single":
-        op["init"] = (2.2, 4)
+        op["init"] = (lo, 4)
         op["mugrid"] = [(3.9, 4)]
     elif cfg["shape"] == "up":
-        op["init"] = (3.0, 4)
+        op["init"] = (lo + 0.8, 4) if lo > 2 else (lo, 4)
         op["mugrid"] = [(mb * 1.4, 5)]
     else:
         op["init"] = (mb * 1.4, 5)
-        op["mugrid"] = [(3.0, 4)]
+        op["mugrid"] = [(3.0 if lo > 2 else lo, 4)]
     op["xgrid"] = [0.2, 1.0]
     c = op["configs"]
     c["evolution_method"] = cfg["method"]
